@@ -2,7 +2,7 @@
 
 Every engine adds what it observed to the merged record `m` (same structure as the Rust workers'
 reports): evaluations, counters, samples, violations (signature/what/witness), inconclusive."""
-import json, os, random, shutil, subprocess, sys, time, hashlib
+import json, os, random, shutil, struct, subprocess, sys, time, hashlib
 from concurrent.futures import ThreadPoolExecutor
 
 VERIF = os.path.dirname(os.path.abspath(__file__))
@@ -125,6 +125,59 @@ def gen_c02_all_incoming(r):
     return g
 
 
+def _msg(mid, body=b""):
+    return struct.pack(">IB", 1 + len(body), mid) + body
+
+
+def gen_c06(r):
+    """Honest seeders whose streams carry well-formed frames that must be skipped (unknown ids,
+    keep-alives) in odd TCP segmentations - they are the only holders of their pieces, so the
+    download completes only if every message after the noise is still delivered - plus peers that
+    end a legal prefix with a malformed frame and must be disconnected."""
+    g, n = gen_geometry(r)
+    k = r.randint(1, 2)
+    haves = [[False] * n for _ in range(k)]
+    for i in range(n):
+        haves[r.randrange(k)][i] = True
+    peers = []
+    for j in range(k):
+        peers.append(dict(port=7001 + j, id="-FK%04d-abcdefghijkl" % j, incoming=r.random() < 0.25, have=haves[j], seed=r.getrandbits(32),
+                          chunk=r.choice([0, 1, 2, 3, 5, 7, 68, 1000, 16384]), latency_ms=r.choice([0, 0, 5]), unchoke_delay_ms=r.choice([0, 50]),
+                          noise_permille=r.choice([300, 600, 800]), connect_delay_ms=200))
+    for j in range(r.randint(1, 2)):
+        kind = r.choice(["oversized-length", "oversized-length", "huge-length", "wrong-length-fixed", "short-piece", "truncated-then-eof", "garbage"])
+        bf = bytearray((n + 7) // 8)
+        for i in range(n):
+            if r.random() < 0.5:
+                bf[i // 8] |= 0x80 >> (i % 8)
+        legal = [_msg(5, bytes(bf))] + [r.choice([_msg(4, struct.pack(">I", r.randrange(n))), bytes(4), _msg(2), _msg(r.choice([9, 77, 255]), r.randbytes(r.choice([0, 5, 300])))]) for _ in range(r.randint(0, 4))]
+        expect = True
+        then_close = False
+        if kind == "oversized-length":
+            bad = struct.pack(">IB", r.choice([65537, 65538, 70000, 1 << 17, 1 << 20]), r.choice([7, 5, 6, 9, 200])) + r.randbytes(r.choice([0, 16, 3000]))
+        elif kind == "huge-length":
+            bad = struct.pack(">IB", r.choice([0x7fffffff, 0x80000000, 0xffffffff, 0xfffffffe, 1 << 30]), r.choice([7, 5, 9, 4])) + r.randbytes(r.choice([0, 64]))
+        elif kind == "wrong-length-fixed":
+            mid, good = r.choice([(0, 1), (1, 1), (2, 1), (3, 1), (4, 5), (6, 13), (8, 13)])
+            ln = r.choice([x for x in (good - 1, good + 1, good + 4, 2, 9) if x != good and x >= 1])
+            bad = struct.pack(">IB", ln, mid) + r.randbytes(ln - 1)
+        elif kind == "short-piece":
+            ln = r.randint(1, 8)
+            bad = struct.pack(">IB", ln, 7) + r.randbytes(ln - 1)
+        elif kind == "truncated-then-eof":
+            full = _msg(7, struct.pack(">II", 0, 0) + r.randbytes(r.choice([100, 16384])))
+            bad = full[:r.randint(1, len(full) - 1)]
+            expect, then_close = False, True
+        else:
+            bad = r.randbytes(r.choice([5, 64, 4000]))
+            expect = False  # may or may not parse as something legal: only "no crash" is judged
+        script = [dict(hex=m.hex(), chunk=r.choice([0, 0, 1, 3])) for m in legal] + [dict(hex=bad.hex(), chunk=r.choice([0, 0, 1, 2, 5]))]
+        peers.append(dict(port=7050 + j, id="-FK%04d-abcdefghijkl" % (50 + j), incoming=r.random() < 0.5, have=[False] * n, seed=r.getrandbits(32), kind=kind,
+                          expect_close=expect, then_close=then_close, script=script, connect_delay_ms=r.choice([100, 300]), close_within_s=10))
+    g.update(peers=peers, tracker_faults=[], tracker_port=8000, timeout_s=90, stall_s=15)
+    return g
+
+
 def gen_c01(r):
     g = gen_c02(r)
     n = len(g["peers"][0]["have"])
@@ -143,7 +196,7 @@ def gen_c19(r, length=None):
     return g
 
 
-GENS = {"C02": gen_c02, "C01": gen_c01, "C19": gen_c19}
+GENS = {"C02": gen_c02, "C01": gen_c01, "C19": gen_c19, "C06": gen_c06}
 
 
 def run_cell(binary, sc, idx, root, netns):
@@ -174,9 +227,9 @@ def e2e(cid, tier, seed, jobs, scale, outdir, m, log, asan=False):
         m["inconclusive"].append("%s: binary build failed" % tag)
         return
     netns = have_netns()
-    n = {"C02": {"quick": 16, "thorough": 400}, "C01": {"quick": 8, "thorough": 200}, "C19": {"quick": 8, "thorough": 120}}[cid][tier]
+    n = {"C02": {"quick": 16, "thorough": 400}, "C01": {"quick": 8, "thorough": 200}, "C19": {"quick": 8, "thorough": 120}, "C06": {"quick": 24, "thorough": 400}}[cid][tier]
     if asan:
-        n = {"quick": 0, "thorough": 96}[tier]
+        n = {"quick": 0, "thorough": 160 if cid == "C06" else 96}[tier]
     n = max(0, int(n * scale))
     if n == 0:
         return
@@ -208,8 +261,8 @@ def e2e(cid, tier, seed, jobs, scale, outdir, m, log, asan=False):
         m["evaluations"] += 1
         v = res.get("verdict")
         desc = {k: sc[k] for k in ("piece_length", "files", "single", "tracker_faults")}
-        desc["peers"] = [{k: p.get(k) for k in ("port", "incoming", "chunk", "latency_ms", "choke_after_blocks", "disconnect_after_blocks", "mid_frame", "corrupt_permille")} | {"pieces": "".join("1" if b else "0" for b in p["have"])} for p in sc["peers"]]
-        wit = {"engine": tag, "scenario": desc, "result": {k: res.get(k) for k in ("verdict", "detail", "elapsed_s", "panics", "sanitizer", "piece_problems", "log_tail", "stdout_tail")}}
+        desc["peers"] = [{k: p.get(k) for k in ("port", "incoming", "chunk", "latency_ms", "choke_after_blocks", "disconnect_after_blocks", "mid_frame", "corrupt_permille", "noise_permille", "kind", "script") if p.get(k) is not None} | {"pieces": "".join("1" if b else "0" for b in p["have"])} for p in sc["peers"]]
+        wit = {"engine": tag, "scenario": desc, "result": {k: res.get(k) for k in ("verdict", "detail", "elapsed_s", "panics", "sanitizer", "piece_problems", "hostile", "peak_rss_kb", "log_tail", "stdout_tail")}}
         _count(m, "%s:%s" % (tag, v))
         if res.get("sanitizer"):
             _viol(m, "%s:%s:sanitizer-report" % (cid, tag), "AddressSanitizer report in the client: %s" % res["sanitizer"][:2], wit)
@@ -217,6 +270,29 @@ def e2e(cid, tier, seed, jobs, scale, outdir, m, log, asan=False):
         if res.get("piece_problems"):
             _viol(m, "C01:%s:stored-piece-not-verified" % tag if cid == "C01" else "%s:%s:stored-piece-not-verified" % (cid, tag), "; ".join(res["piece_problems"]), wit)
             continue
+        if cid == "C06" and res.get("panics"):
+            _viol(m, "C06:%s:panic-in-client" % tag, "a task of the client panicked: %s" % res["panics"][:2], wit)
+            continue
+        if cid == "C06" and v in ("complete", "stalled", "timeout"):
+            bad = None
+            for h in res.get("hostile", []):
+                _count(m, "%s_hostile_connections" % tag.replace("-", "_"))
+                if h.get("expect_close") and h.get("done") and not h.get("error"):
+                    if h.get("closed_after_s") is None and h.get("closed_early_at_step") is None:
+                        bad = h
+                    else:
+                        _count(m, "%s_malformed_frame_terminated" % tag.replace("-", "_"))
+                        m["sets"].setdefault("malformed_kinds_terminated", set()).add(h.get("kind"))
+            if bad:
+                wit["hostile"] = bad
+                _viol(m, "C06:%s:malformed-frame-not-terminated:%s" % (tag, bad.get("kind")), "peer %s sent a %s frame after a legal prefix; the client kept the connection open for %s s" % (bad.get("port"), bad.get("kind"), bad.get("waited_s")), wit)
+                continue
+            rss = res.get("peak_rss_kb", 0)
+            if rss:
+                m["counters"]["max:%s_peak_rss_kb" % tag.replace("-", "_")] = max(m["counters"].get("max:%s_peak_rss_kb" % tag.replace("-", "_"), 0), rss)
+            if not asan and rss > 200_000:
+                _viol(m, "C06:%s:unbounded-buffering" % tag, "peak resident set of the client %d kB with peers sending at most a few hundred kB" % rss, wit)
+                continue
         if v == "complete":
             if res.get("unexpected_files"):
                 _viol(m, "%s:%s:unexpected-output" % (cid, tag), "unexpected files %s" % res["unexpected_files"], wit)
@@ -252,10 +328,10 @@ def e2e_asan(cid, tier, seed, jobs, scale, outdir, m, log):
 
 MIRI_PLAN = {
     # check: (parts, scale) — sized so that one shard interprets a few dozen cases / 1-3 scenarios
-    "C01": ("", 0.002), "C02": ("", 0.003), "C03": ("random", 0.05), "C05": ("", 0.01), "C06": ("decoder", 0.01),
-    "C07": ("", 0.001), "C08": ("", 0.004), "C09": ("", 0.006), "C10": ("", 0.006), "C11": ("", 0.006),
-    "C12": ("", 0.0015), "C13": ("random", 0.004), "C14": ("direct", 0.003), "C15": ("", 0.002),
-    "C16": ("mutations,extremes", 0.01), "C17": ("docs,totality", 0.002), "C19": ("replies", 0.003), "C20": ("", 0.002),
+    "C01": ("", 0.002), "C02": ("", 0.003), "C03": ("random", 0.05), "C05": ("", 0.001), "C06": ("decoder", 0.002),
+    "C07": ("", 0.0002), "C08": ("", 0.0015), "C09": ("", 0.006), "C10": ("", 0.003), "C11": ("", 0.006),
+    "C12": ("", 0.0015), "C13": ("random", 0.001), "C14": ("direct", 0.0006), "C15": ("", 0.0005),
+    "C16": ("mutations,extremes", 0.002), "C17": ("docs,totality", 0.0001), "C19": ("replies", 0.001), "C20": ("", 0.002),
 }
 
 
